@@ -264,6 +264,16 @@ def run(case):
                     case.check(g.shape == want_.shape and np.array_equal(g, want_),
                                f"alignment model built from {nm_} ({how_}) does not use that tilt model's mask", None,
                                shape=shape, range=rg, kept=int(g.sum()), want=int(want_.sum()))
+        # the wedge used by align/landscape is oriented by the quaternion, with or without a position
+        if min(shape) >= 4:
+            img_ = rng.normal(size=shape).astype(np.float32)
+            zpos = np.zeros(3, np.float32)
+            a1_ = m_tuple.align(img_, (1.0, 1.0, 1.0), quat)
+            a2_ = m_tuple.align(img_, (1.0, 1.0, 1.0), quat, zpos)
+            case.check(np.allclose(a1_.shift, a2_.shift, atol=1e-6) and
+                       abs(float(a1_.score) - float(a2_.score)) <= 1e-6 * max(1.0, abs(float(a2_.score))),
+                       "align(img, max_shifts, quaternion) uses another wedge than align(img, max_shifts, quaternion, pos)",
+                       None, shape=shape, range=rg)
         F = np.fft.fftn(tmpl).astype(np.complex64)
         mm = np.asarray(m_tuple.mask_missing_wedge(F, quat))
         case.check(np.allclose(mm, F * a, atol=1e-5 * np.abs(F).max()),
